@@ -37,7 +37,7 @@ def gen_case(rng, tier, idx):
     attrs, shape = gen.domain(rng, 2, 4, sizes=(2, 3, 4), max_cells=200)
     N = float(gen.pick(rng, [20, 1000]))
     pool, info = measure.gen_measurements(rng, attrs, shape, 4, 7, N=N, min_cells=2, max_cells=48,
-                                          qkinds=['none', 'identity', 'dense', 'sparse', 'prefix', 'tall'])
+                                          qkinds=['none', 'identity', 'dense', 'sparse', 'prefix', 'tall', 'wide', 'rankdef'])
     ncalls = int(rng.randint(3, 7)) if kind == 'history' else int(rng.randint(2, 5))
     calls = []
     cur = [0]
